@@ -11,7 +11,7 @@ RULE = ('data::encode on structured inputs (capacity-boundary lengths first) x s
         'is the first of the list order that holds the produced stream and never larger than plain ASCII / plain Base256 encodation '
         'needs; (2) for inputs up to 48 bytes an exact search (tools/props/refenc.best_stream: reachability over position x codewords '
         'used x mode sub-state, every legal segmentation and end-of-data form) looks for a legal stream in any smaller listed '
-        'capacity; a hit is re-validated by the reference decoder before it is reported; non-trivial = input of >= 4 bytes')
+        'capacity; a hit is re-validated by the reference decoder before it is reported; non-trivial = input of >= 4 bytes; codec-constant and single-symbol-list boundary families as in C02')
 THEOREMS = 'C10_first_fit, C10_greedy_optimal, C10_ascii_only_minimal, C10_order_is_capacity, C10_exact_fit_refuted, C10_refusal_refuted'
 ASSUMPTIONS = ['refenc.py / refdec.py are independent readings of ISO/IEC 16022 5.2',
                'the exact search is bounded to short inputs (quick: <= 32 bytes, thorough: <= 48) and to 400000 search states']
